@@ -80,6 +80,13 @@ preserving('R1-control-renamed', ['C03', 'C04'], edit=[(M + 'sim/state.py', "   
 preserving('D5-explicit-tuple', ['C03'], edit=[(M + 'sim/circuit.py', "target_qubit = hf_tuple_of_int(index[1])", "target_qubit = tuple(int(x) for x in index[1])")])
 preserving('A6-named-columns', ['C04'], edit=[(M + '_torch_op.py', "tmp1[ind_zero[:,0],ind_zero[:,1],ind_zero[:,1]] = 0", "tmp1[ind_zero[:,0], ind_zero[:,1], ind_zero[:,1]] = 0.0")])
 preserving('SV1-isinf-swapped', ['C05'], edit=[(M + 'entangle/symext.py', "tmp0 = not np.isinf(prob.value)", "tmp0 = (not np.isinf(prob.value))")])
+breaking('PT1-loop-over-kept', {'C17': 'PT1'}, edit=[(M + 'utils.py', "    tmp2 = set(range(N0))-set(keep_index)\n", "    tmp2 = set(keep_index)\n")])
+breaking('PT1-output-cols-first', {'C17': 'PT1'}, edit=[(M + 'utils.py', "    tmp3 = list(keep_index) + [x+N0 for x in keep_index]", "    tmp3 = [x+N0 for x in keep_index] + list(keep_index)")])
+breaking('PT1-wrong-shared-leg', {'C17': 'PT1'}, edit=[(M + 'utils.py', "    for x in tmp2:\n        tmp1[x] = x\n", "    for x in tmp2:\n        tmp1[x] = 0\n")])
+breaking('PT2-swapped-occupations', {'C17': 'PT2'}, edit=[(M + 'dicke.py', "tmp3 = np.sqrt(klist_np[tmp1,ind0]*klist_np[tmp2,ind1])/num_qudit", "tmp3 = np.sqrt(klist_np[tmp1,ind1]*klist_np[tmp2,ind0])/num_qudit")])
+breaking('PT3-conj-on-ket', {'C17': 'PT3'}, edit=[(M + 'dicke.py', "ret.append((state[:,ind0] * value) @ state_conj[:,ind1].T)", "ret.append((state_conj[:,ind0] * value) @ state[:,ind1].T)")])
+breaking('PT3-numpy-no-reorder', {'C17': 'PT3'}, edit=[(M + 'dicke.py', ".reshape(dimA,dimA,dimB,dimB).transpose(0,2,1,3).reshape(dimA*dimB,dimA*dimB)", ".reshape(dimA,dimA,dimB,dimB).transpose(0,1,2,3).reshape(dimA*dimB,dimA*dimB)")])
+preserving('PT1-renamed', ['C17'], edit=[(M + 'utils.py', "    tmp0 = list(range(N0))\n    tmp1 = list(range(N0,2*N0))\n    tmp2 = set(range(N0))-set(keep_index)\n    for x in tmp2:\n        tmp1[x] = x\n    tmp3 = list(keep_index) + [x+N0 for x in keep_index]\n    N1 = np.prod([dim[x] for x in keep_index])\n    ret = np.einsum(rho, tmp0+tmp1, tmp3, optimize=True).reshape(N1, N1)", "    row_legs = list(range(N0))\n    col_legs = list(range(N0,2*N0))\n    traced = set(range(N0))-set(keep_index)\n    for k in traced:\n        col_legs[k] = k\n    out_legs = list(keep_index) + [k+N0 for k in keep_index]\n    N1 = np.prod([dim[x] for x in keep_index])\n    ret = np.einsum(rho, row_legs+col_legs, out_legs, optimize=True).reshape(N1, N1)")])
 breaking('refix-get_gme_2qubit', {'C13': 'F2', 'C05': 'F2'}, patch_reverse='fix_78cd862.diff')
 
 # ---- textual breaking edits, one per rule family
